@@ -15,7 +15,7 @@ from pv.core import Sub, Violation, call_fuel, check, short, OutOfFuel
 
 ASSUMPTIONS = [
     'second resolution for string / int bumps (rrule discards microseconds), millisecond steps for timedelta bumps (a plain loop); start dates 1950-2050; spans up to ~3 years but at most ~400 list elements',
-    'endpoints a whole number of days apart for int / business-day / d / w bumps; midnight and day-of-month <= 28 for m/q/y parts; intraday endpoints with timedelta and h/n/s bumps',
+    'endpoints a whole number of days apart for business-day bumps (int / timedelta / d / w bumps: in a third of the cases a whole number of days plus 1 h / 12 h / 23:59:59, or less than a day); midnight and day-of-month <= 28 for m/q/y parts (the 28th, the 1st, February, December and January over-weighted); intraday endpoints with timedelta and h/n/s bumps',
     'a zero business-day bump ("0b") is outside the claim (it lists every weekday; the statement only speaks of bumps pointing away from t1)',
     'compound tenors: all parts of one sign, or a dominant first part (>= 4 weeks) followed by a small correction (<= 7 days) so the step is strictly monotone; '
     'business-day parts appear only in single-period strings',
@@ -98,6 +98,32 @@ def ref_weekdays(t0, t1, k):
 _ord = st.integers(datetime.date(1950, 1, 1).toordinal(), datetime.date(2050, 1, 1).toordinal())
 
 
+def _frac(draw, days, nel):
+    """the distance between the endpoints in seconds: `days` whole days, in a third of the cases plus a part of a day (the endpoints then have
+    different times of day), and now and then LESS than a day in all (the list is then [t0])"""
+    rem = draw(st.sampled_from([0, 0, 0, 0, 3600, 43200, 86399]))
+    if rem and (nel == 0 or draw(st.integers(0, 7)) == 0):
+        return rem
+    return days * 86400 + rem
+
+
+def _month_end_ordinal(draw, o):
+    """boundary days for month arithmetic that exist in every month: the 28th (the last day of a non-leap February), the 1st, and February itself"""
+    d = datetime.date.fromordinal(o)
+    how = draw(st.sampled_from(['asis', 'asis', 'asis', 'feb28', 'feb28', 'day28', 'day1', 'dec', 'jan']))
+    if how == 'feb28':
+        return d.replace(month=2, day=28).toordinal()
+    if how == 'day28':
+        return d.replace(day=28).toordinal()
+    if how == 'day1':
+        return d.replace(day=1).toordinal()
+    if how == 'dec':
+        return d.replace(month=12, day=min(d.day, 28)).toordinal()
+    if how == 'jan':
+        return d.replace(month=1, day=min(d.day, 28)).toordinal()
+    return d.replace(day=min(d.day, 28)).toordinal()
+
+
 @st.composite
 def _case(draw):
     kind = draw(st.sampled_from(['int', 'int', 'td_days', 'td_intraday', 'td_subsecond', 'd', 'w', 'b', 'b', 'month', 'month', 'hns', 'compound', 'compound', 'equal'] * 3 + ['long']))
@@ -122,12 +148,12 @@ def _case(draw):
         n = draw(st.integers(1, 10)) if draw(st.sampled_from([1] * 11 + [0])) else 0
         nel = draw(st.integers(0, 60)) + draw(st.sampled_from([0, 3]))
         span = max(1, nel * max(n, 1) + draw(st.integers(0, max(n - 1, 0))))
-        spec.update(t0=[o, draw(st.sampled_from([0, 0, 7200]))], span_s=sgn * span * 86400, bump=bs * n, also=draw(st.sampled_from([None, 'td', 'str'])))
+        spec.update(t0=[o, draw(st.sampled_from([0, 0, 7200]))], span_s=sgn * _frac(draw, span, nel), bump=bs * n, also=draw(st.sampled_from([None, 'td', 'str'])))
     elif kind == 'td_days':
         n = draw(st.integers(1, 10)) if draw(st.sampled_from([1] * 11 + [0])) else 0
         nel = draw(st.integers(0, 60)) + draw(st.sampled_from([0, 3]))
         span = max(1, nel * max(n, 1) + draw(st.integers(0, max(n - 1, 0))))
-        spec.update(t0=[o, draw(st.sampled_from([0, 0, 7200]))], span_s=sgn * span * 86400, bump=['td', bs * n * 86400])
+        spec.update(t0=[o, draw(st.sampled_from([0, 0, 7200]))], span_s=sgn * _frac(draw, span, nel), bump=['td', bs * n * 86400])
     elif kind == 'td_subsecond':      # the timedelta branch is a plain loop: sub-second steps are valid there (milliseconds in the spec)
         step = draw(st.sampled_from([100, 250, 1100, 1, 333, 7]))
         nel = draw(st.integers(0, 40))
@@ -143,7 +169,7 @@ def _case(draw):
         mult = 1 if kind == 'd' else 7
         nel = draw(st.integers(0, 50))
         span = max(1, nel * max(n, 1) * mult + draw(st.integers(0, 6)))
-        spec.update(t0=[o, draw(st.sampled_from([0, 0, 7200]))], span_s=sgn * span * 86400, bump='%s%i%s' % ('-' if bs < 0 else draw(st.sampled_from(['', '+'])), n, draw(st.sampled_from([kind, kind.upper()]))))
+        spec.update(t0=[o, draw(st.sampled_from([0, 0, 7200]))], span_s=sgn * _frac(draw, span, nel), bump='%s%i%s' % ('-' if bs < 0 else draw(st.sampled_from(['', '+'])), n, draw(st.sampled_from([kind, kind.upper()]))))
     elif kind == 'b':
         n = draw(st.integers(1, 7))
         span = draw(st.integers(1, 250))
@@ -152,8 +178,7 @@ def _case(draw):
     elif kind == 'month':
         unit = draw(st.sampled_from(['m', 'm', 'q', 'y']))
         n = draw(st.integers(1, 5)) if draw(st.sampled_from([1] * 11 + [0])) else 0
-        d = datetime.date.fromordinal(o)
-        o = d.replace(day=min(d.day, 28)).toordinal()
+        o = _month_end_ordinal(draw, o)
         span = draw(st.integers(1, 1100))
         spec.update(t0=[o, 0], span_s=sgn * span * 86400, bump='%s%i%s' % ('-' if bs < 0 else '', n, unit))
     elif kind == 'hns':
@@ -171,8 +196,7 @@ def _case(draw):
         tenor = {'md': '%s%im%s%id' % (s, a, s, b), 'ym': '%s%iy%s%im' % (s, a, s, b), 'wd': '%s%iw%s%id' % (s, a, s, b), 'dh': '%s%id%s%ih' % (s, a, s, b),
                  'ymd': '%s%iy%s%im%s%id' % (s, a, s, b, s, c), 'm-d': '%s%im%s%id' % (s, a, o_s, b), 'y-m': '%s%iy%s%im' % (s, a, o_s, b), 'w-d': '%s%iw%s%id' % (s, a + 3, o_s, b)}[form]
         if form in ('md', 'ym', 'ymd', 'm-d', 'y-m'):
-            d = datetime.date.fromordinal(o)
-            o = d.replace(day=min(d.day, 28)).toordinal()
+            o = _month_end_ordinal(draw, o)
             sec = 0
             span = draw(st.integers(1, 1100)) * 86400
         elif form == 'dh':
@@ -257,6 +281,14 @@ def run_drange(spec):
     cls = ['kind=' + kind, 'route=' + spec['route'], 'wrong_direction_or_zero' if exp is None else 'n=%s' % ('0' if n == 0 else '1-2' if n < 3 else '3+')]
     if spec['back']:
         cls.append('t1<t0')
+    if kind in ('int', 'td_days', 'd', 'w') and int(abs(spec['span_s'])) % 86400:
+        cls.append('endpoints_not_whole_days_apart')
+        if abs(spec['span_s']) < 86400:
+            cls.append('endpoints_less_than_a_day_apart')
+    if kind in ('month', 'compound') and t0.day == 28 and t0.month == 2 and t0.hour == 0:
+        cls.append('from_28_feb')
+        if t0.year % 4:
+            cls.append('from_28_feb_non_leap')
     if exp is not None and spec['back'] and n >= 3:
         cls.append('negative_direction_3+')
     nt = exp is None or (n >= 3 and (spec['back'] or kind in ('compound', 'td_intraday', 'td_subsecond', 'hns') or (isinstance(spec['bump'], int) and abs(spec['bump']) > 1) or kind in ('b', 'month')))
@@ -269,5 +301,5 @@ SUBS = [
              '(d w b m q y h n s, +-, 0, both cases), compound strings; right and wrong direction; module drange and Calendar.drange. Oracle: reference iteration with '
              'datetime arithmetic (weekday walk for b), ValueError for wrong-direction/zero, int == timedelta == "nd", fuel-bounded termination. '
              'non-trivial = >= 3 elements with negative direction / stride > 1 / compound / intraday / b / month, or a wrong-direction case',
-        floor=0.3, class_floors={'wrong_direction_or_zero': 0.1, 'negative_direction_3+': 0.1, 'kind=compound': 0.05, 'kind=b': 0.05}),
+        floor=0.3, class_floors={'endpoints_not_whole_days_apart': 0.08, 'endpoints_less_than_a_day_apart': 0.004, 'from_28_feb_non_leap': 0.02, 'wrong_direction_or_zero': 0.1, 'negative_direction_3+': 0.1, 'kind=compound': 0.05, 'kind=b': 0.05}),
 ]
